@@ -68,7 +68,8 @@ TEXTS = {
  },
  "C16": {
   "level": "Lean theorem: with no move time and no clock control the entire search result (best move, score, nodes, info lines, every cache write, the cache) is independent of the clock; the model is a "
-           "function of (position incl. history, depth, initial cache) only. Tied to the code: every case run 3x in-process with identical full traces equal to the model's prediction; the real binary "
+           "function of (position incl. history, depth, initial cache) only; the node total of the bench (any list of positions, any depth, limits as Search::new(board, None) sets them, each from a cleared cache) is the same "
+           "for every family of clocks (bench_total_clock_indep). Tied to the code: every case run 3x in-process with identical full traces equal to the model's prediction; chains of different searches on one thread with the cache cleared in between (state surviving a search); the real binary "
            "run in separate processes, under 16-way CPU load, and bench twice with equal node totals.",
   "note": "Trusted: Lean kernel, search model (trace-exact), harness/driver. Nondeterminism below the model (e.g. a future HashMap iteration) is only excluded by the repeated-run correspondence.",
   "technique": "Lean 4 proof (non-interference of the clock) + repeated-run / multi-process differential correspondence",
